@@ -123,9 +123,14 @@ def main():
 
     # ---- replay mode ---------------------------------------------------------
     if args.replay:
-        ok, out = build()
+        ok, out = (True, '') if args.no_build else build()
         payload = json.load(open(args.replay))
-        res = mod.replay(payload)
+        if 'case' not in payload:
+            # a theorem / correspondence that no longer checked, without a concrete input: re-run that obligation
+            pr = proof_stage(pid) if ok else {'ok': False, 'log': out[-2000:]}
+            res = {'holds': bool(ok and pr['ok']), 'rechecked': payload.get('no_longer_checks'), 'log': pr.get('log', '')[-1500:] if not pr.get('ok') else ''}
+        else:
+            res = mod.replay(payload)
         print(json.dumps(jsonable(res), indent=1))
         sys.exit(0 if res.get('holds') else 1)
 
